@@ -139,6 +139,10 @@ func checkC05(p *Program, r *Report) {
 			"*SlimTrie no longer is a plain proto.Marshaler (Marshal missing or XXX_Size/XXX_Marshal present): the advertised size is computed differently from the bytes written")
 	}
 
+	// ---- a loaded trie's bitmaps carry the index kinds the readers assume (shared with C01.kind):
+	// the kind engine covers every site that builds or re-builds an index, including load-time fix-ups
+	checkKindsAs(p, r, "C05.kind")
+
 	// ---- self-compat and residue
 	vt := buildVersTable(p)
 	r.Rule("C05.selfcompat", "E4", "the version Marshal stamps is loadable by the no-fix-up loader", 1)
